@@ -88,6 +88,18 @@ func check(c Case) vlib.Outcome {
 		if !gq.Valid() {
 			return vlib.Outcome{Skip: true}
 		}
+		if c.World == "overlay" && gq.Kind == "feature" && vlib.Known("c04-intersects-feature-across-layers") {
+			inBase := false
+			for _, f := range c.Set.Features[:len(c.Set.Features)/2] {
+				if f.ID == *gq.Feature {
+					inBase = true
+				}
+			}
+			if !inBase {
+				out.Classes = append(out.Classes, "excluded:c04-intersects-feature-across-layers")
+				continue
+			}
+		}
 		q := gq.Query()
 		var want []string
 		for _, f := range all {
